@@ -370,13 +370,66 @@ fn random_case(u: &mut Choices, sz: Size) -> CaseResult {
     }
 }
 
+// ------------------------------------------------------------------------------------------------
+// projections through a variable whose result set is mixed (some entries resolve, others do not)
+
+fn mixed_case(u: &mut Choices) -> CaseResult {
+    // items: a list of maps, res: a map of maps; each entry may lack `k`, and `k` may lack `a`
+    let mut entry = |u: &mut Choices| -> V {
+        let mut m = vec![("j".to_string(), V::Int(u.below(3) as i64))];
+        if u.chance(2, 3) {
+            let mut k = vec![];
+            if u.chance(3, 4) {
+                k.push(("a".to_string(), [V::Int(1), V::Int(2), V::s("x"), V::Bool(true), V::List(vec![V::Int(1)])][u.below(5)].clone()));
+            }
+            if u.chance(1, 2) {
+                k.push(("b".to_string(), V::Int(1)));
+            }
+            m.push(("k".to_string(), V::Map(k)));
+        }
+        V::Map(m)
+    };
+    let n = u.range(1, 4);
+    let items: Vec<V> = (0..n).map(|_| entry(u)).collect();
+    let res: Vec<(String, V)> = (0..u.range(1, 3)).map(|i| (format!("r{}", i), entry(u))).collect();
+    let doc = V::Map(vec![("items".into(), V::List(items)), ("res".into(), V::Map(res))]).to_json();
+    let (prefix, rest) = *u.pick(&[("items[*].k", "a"), ("items[*]", "k.a"), ("res.*.k", "a"), ("res.*", "k.a"), ("items[*].k", "b"), ("res.*", "k")]);
+    let tail = *u.pick(&["== 1", "!= 1", "exists", "!exists", "in [1, 2]", "> 1", "is_int", "!empty", "== 'x'", "not in [1, 'x']"]);
+    let some = if u.chance(1, 3) { "some " } else { "" };
+    let not = if u.chance(1, 5) { "not " } else { "" };
+    let inline = format!("rule r {{\n  {}{}{}.{} {}\n}}\n", not, some, prefix, rest, tail);
+    let form = u.below(5);
+    let abstracted = match form {
+        0 => format!("let v = {}\nrule r {{\n  {}{}%v.{} {}\n}}\n", prefix, not, some, rest, tail),
+        1 => format!("rule r {{\n  let v = {}\n  {}{}%v.{} {}\n}}\n", prefix, not, some, rest, tail),
+        2 => format!("rule f(p) {{\n  {}{}%p.{} {}\n}}\nrule r {{\n  f({})\n}}\n", not, some, rest, tail, prefix),
+        3 => format!("let v = {}\nrule other {{\n  %v exists\n}}\nrule r {{\n  {}{}%v.{} {}\n}}\n", prefix, not, some, rest, tail),
+        _ => format!("rule r {{\n  when items exists {{\n    let v = {}\n    {}{}%v.{} {}\n  }}\n}}\n", prefix, not, some, rest, tail),
+    };
+    let case = json!({"doc": doc, "inline": inline, "abstracted": abstracted, "sig": "c15:status-changed:mixed-projection"});
+    match compare(&doc, &inline, &abstracted) {
+        Ok(m) => {
+            let st = m.as_ref().and_then(|m| m.get("r").copied());
+            CaseResult::Pass(Info {
+                nontrivial: st.map_or(false, |s| s != St::Skip),
+                key: hash_case(&[&doc, &inline, &abstracted]),
+                classes: vec![format!("mixed:form:{}", form), format!("mixed:r:{}", st.map_or("ERROR", |s| s.text()))],
+                evals: 2,
+                sample: Some(case),
+            })
+        }
+        Err((msg, sig)) => CaseResult::Fail(Failure { msg: format!("projection through a variable with mixed entries: {}", msg), sig: if sig.starts_with("panic") || sig.contains("generator") { sig } else { "c15:status-changed:mixed-projection".into() }, case }),
+    }
+}
+
 pub fn run(tier: Tier, seed: u64) -> i32 {
     let spec = EvidenceSpec {
-        rule: "Random core programs x documents; one abstraction per case: a right-hand literal -> `let` (file, rule, block or when scope; optionally shadowing an outer definition of the same name), a prefix of a left-hand query -> `let` + `%v.rest` (at the scope whose context is the clause's context), a block query -> `let`, an unused `let` (literal, unresolved query, or a function call that would raise an error), a rule-body clause -> parameterised rule called with the query or with the literal as argument, or a two-parameter rule whose parameter names are also the caller's variable names, passed crossed over (`zg(%zpb, %zpa)`); the rules of the abstracted program are additionally shuffled in half of the cases (which reference forces the lazy evaluation first). Both programs are evaluated by the tool: every rule of the original must keep its status (or both raise an evaluation error). Exempt: emptiness tests on a bare variable, filters directly after a variable. Non-trivial: the abstracted expression resolves to a value and some rule is not SKIP; distinct by hash of the three texts.".into(),
+        rule: "Random core programs x documents; one abstraction per case: a right-hand literal -> `let` (file, rule, block or when scope; optionally shadowing an outer definition of the same name), a prefix of a left-hand query -> `let` + `%v.rest` (at the scope whose context is the clause's context), a block query -> `let`, an unused `let` (literal, unresolved query, or a function call that would raise an error), a rule-body clause -> parameterised rule called with the query or with the literal as argument, or a two-parameter rule whose parameter names are also the caller's variable names, passed crossed over (`zg(%zpb, %zpa)`); the rules of the abstracted program are additionally shuffled in half of the cases (which reference forces the lazy evaluation first). Both programs are evaluated by the tool: every rule of the original must keep its status (or both raise an evaluation error). Stage 'mixed-projections': documents in which a projection (`items[*].k`, `res.*.k`) resolves for some entries and not for others; the clause `prefix.rest <test>` (10 tests, optional `some` / `not`) is compared with `%v.rest <test>` for v bound at file, rule or when-block level, used by another rule first, or passed to a parameterised rule. Exempt: emptiness tests on a bare variable, filters directly after a variable. Non-trivial: the abstracted expression resolves to a value and some rule is not SKIP; distinct by hash of the three texts.".into(),
         assumptions: vec!["`%v.rest` continues from every value of v (the implicit [*] is a no-op on the result set), as documented in QUERY_PROJECTION_AND_INTERPOLATION.md".into()],
     };
     execute("C15", tier, seed, spec, &replay, &|run: &Session| {
         let sz = tier.pick(Size::quick(), Size::thorough());
+        run.run_random("mixed-projections", tier.pick(20_000, 400_000), 200, mixed_case);
         run.run_random("abstractions", tier.pick(60_000, 1_200_000), tier.pick(1200, 2400), |u| random_case(u, sz));
     })
 }
